@@ -616,7 +616,12 @@ Definition force_fail (s : st) (tid : nat) : st :=
   let s1 := upd_task s tid (t_set_state (nth tid (tasks s) (mkTrow 0 Invalid false [] false false false 0 [])) ERROR) in
   match fail_workflow s1 with Some s2 => s2 | None => s1 end.
 
-Definition FUEL (sp : spec) (s : st) : nat := 4 * (length sp + length (tasks s) + length (backlog s)) + 16.
+(* total number of clause entries of a program: bounds the commands one completion can produce *)
+Definition spec_size (sp : spec) : nat :=
+  fold_right (fun t a => length (ts_succ t) + length (ts_err t) + length (ts_compl t) + length (ts_skip t) + a) 0 sp.
+
+Definition FUEL (sp : spec) (s : st) : nat :=
+  4 * (length sp + spec_size sp + length (tasks s) + length (backlog s)) + 16.
 
 (* _check_affected_tasks *)
 Definition check_affected (sp : spec) (t : tx) (tid : nat) : tx :=
